@@ -102,6 +102,26 @@ def c08b(ctx, tu):
                 if isinstance(init, list) and init[:1] == ["member"] and erase(init[1]) == "trompeloeil::call_matcher::actions":
                     rng = e
         ok = rng is not None and l["kind"] == "rangefor" and not l["exit_edges"]
+        if not ok and not l["exit_edges"]:
+            # another spelling of the walk: one iteration runs the current element's action exactly once and moves on
+            # by one; the walk starts at begin() of the `actions` list
+            from rules.common import LoopModel, iter_calls, Oracle
+            from engine.table import Unknown
+            try:
+                lm = LoopModel(fn, l)
+                seen = []
+
+                def act(t, it, seen=seen):
+                    r = t[3] if t[0] == "mcall" else None
+                    seen.append(it.ev(r) if r is not None else None)
+                    return None
+                o = Oracle(calls=iter_calls("elem", {A["side_effect_action"]: act}), any_member=True, any_call=True, any_param=True)
+                res, it = lm.step(o, at="elem")
+                begins = [e for b, e in fn.events() if e["e"] == "call" and qe(e) == "trompeloeil::list::begin" and
+                          erase(str(lib.resolve(fn, e.get("recv")))).find("trompeloeil::call_matcher::actions") >= 0]
+                ok = res == ("stop", lm.entry) and len(seen) == 1 and "cur" in str(seen[0]) and bool(begins)
+            except Unknown:
+                ok = None
         ctx.ob("C08.b.loop", A["run_actions"], ok, pattern=short_loc(l["loc"]), unit=tu.name, inst=fn.q,
                detail="" if ok else "the side-effect loop must range over the whole `actions` list in list order "
                "with no exit other than a callback's exception")
